@@ -158,6 +158,12 @@ def time_respecting_paths(G, u, v=None, start=None, end=None, sample=1):
         >>> paths = al.time_respecting_paths(g, "D", "C", start=1, end=9)
 
     """
+    if start is None:
+        # the documented default: the first snapshot id
+        ids = G.temporal_snapshots_ids()
+        if len(ids) > 0:
+            start = ids[0]
+
     if not G.has_node(u, start):
         return []
 
